@@ -372,6 +372,62 @@ func genDsd() {
 		fmt.Fprintf(&sb, "  (%s, %s)%s  -- %q\n", codePoints(r.k), r.v, comma(i, len(rows)), r.k)
 	}
 	sb.WriteString("]\n\n")
+	// ---- http.go: what FormatFromAccept iterates over ---------------------------------------------------
+	// The model's loop runs over `splitOn 44 accept` — every element. The source must say exactly
+	// `for _, mimeType := range strings.Split(accept, ",")`: one range loop in the function, over a call of
+	// strings.Split with the parameter and a one-character literal. Anything else (SplitN / a limit, another
+	// separator, a slice expression on the result, a second loop) fails closed.
+	{
+		fd := findFunc(hf, "FormatFromAccept", "")
+		if fd == nil || fd.Type.Params == nil || len(fd.Type.Params.List) != 1 || len(fd.Type.Params.List[0].Names) != 1 {
+			die("FormatFromAccept: not found or unexpected parameter list")
+		}
+		param := fd.Type.Params.List[0].Names[0].Name
+		var loops []ast.Stmt
+		ast.Inspect(fd.Body, func(n ast.Node) bool {
+			switch n.(type) {
+			case *ast.RangeStmt, *ast.ForStmt:
+				loops = append(loops, n.(ast.Stmt))
+			}
+			return true
+		})
+		if len(loops) != 1 {
+			die("FormatFromAccept: expected exactly one loop, found %d", len(loops))
+		}
+		rs, ok := loops[0].(*ast.RangeStmt)
+		if !ok || rs.Tok != token.DEFINE || !dsdIsIdent(rs.Key, "_") || rs.Value == nil {
+			die("FormatFromAccept: expected `for _, x := range ...`")
+		}
+		call, ok := rs.X.(*ast.CallExpr)
+		if !ok || len(call.Args) != 2 || call.Ellipsis != token.NoPos {
+			die("FormatFromAccept: the loop must range over a two-argument call (strings.Split(accept, \",\"))")
+		}
+		sel, ok := call.Fun.(*ast.SelectorExpr)
+		if !ok || !dsdIsIdent(sel.X, "strings") || sel.Sel.Name != "Split" {
+			die("FormatFromAccept: the loop must range over strings.Split(...), every element")
+		}
+		if !dsdIsIdent(call.Args[0], param) {
+			die("FormatFromAccept: strings.Split must be applied to the parameter %s itself", param)
+		}
+		sep := dsdStrLit(call.Args[1])
+		if len([]rune(sep)) != 1 {
+			die("FormatFromAccept: separator %q is not a single character", sep)
+		}
+		// the parameter must not be reassigned / resliced before the loop
+		ast.Inspect(fd.Body, func(n ast.Node) bool {
+			if as, ok := n.(*ast.AssignStmt); ok {
+				for _, l := range as.Lhs {
+					if dsdIsIdent(l, param) {
+						die("FormatFromAccept: the parameter %s is assigned to", param)
+					}
+				}
+			}
+			return true
+		})
+		sb.WriteString("/-- What the loop of `FormatFromAccept` ranges over: the function called on the parameter, and its separator. -/\n")
+		fmt.Fprintf(&sb, "def acceptSplit : String × List Nat := (\"strings.Split\", %s)  -- %q\n\n", codePoints(sep), sep)
+	}
+
 	// ---- state surface of the package ---------------------------------------------------------------
 	files, err := filepath.Glob(filepath.Join(repo, "formats/dsd", "*.go"))
 	if err != nil || len(files) == 0 {
